@@ -24,6 +24,8 @@ def run(prog, chk):
     wiring(prog, chk)
     errors(prog, chk)
     accumulator(prog, chk)
+    from props import geomalg
+    geomalg.check(prog, chk, "C12", floor=17)
 
 
 def _lit(body, t, i):
